@@ -124,6 +124,9 @@ func nativeWords(p *Prog, l *Ledger, typeName string) ([]string, *ssa.Function, 
 
 func checkC11(p *Prog, l *Ledger) {
 	q := regexp.QuoteMeta
+	// লেন(a) is the element count of what a denotes *now*: a call is evaluated where and when it is written — nothing
+	// outside eval's dispatch looks at the syntactic kind of an expression to hoist, cache or pre-compute it (C16/C18's rule)
+	checkNodeKindTests(p, l, "C11/S3-no-syntactic-rewrites")
 	// the array built-ins work on the argument values of their own call: the call clause hands each callee a list
 	// built during this evaluation from the evaluated arguments, in order (rule shared with C04)
 	if cs := getClauses(p); cs.account(l) {
